@@ -10,8 +10,8 @@ from sim import run_scenario
 from .base import Result, V
 from . import simcommon as SC
 
-MODULES = ['TickitModel.Props.C07', 'TickitModel.Props.C07Nested', 'TickitModel.Props.C12']
-THEOREMS = ['minv_init', 'minv_step', 'no_interrupt_lost', 'not_displaced', 'next_tick_not_after_stamp', 'served_as_root', 'tick_ends_after_roots', 'owed_cleared_only_by_update', 'interrupts_coalesce', 'interrupts_coalesce_fresh', 'interrupt_wake_le_stamp', 'interrupt_record_le_stamp', 'interrupt_keeps_earlier_callback', 'interrupt_keeps_earlier_callback_eq', 'interrupt_replaces_later_callback', 'displaced_without_record', 'interrupt_due_now', 'stamp_law', 'late_immediate', 'nested_no_interrupt_lost', 'queued_becomes_root', 'queued_means_told', 'clear_after_tick_loses']
+MODULES = ['TickitModel.Props.C07', 'TickitModel.Props.C07Nested', 'TickitModel.Props.C12', 'TickitModel.Props.FlatInt']
+THEOREMS = ['minv_init', 'minv_step', 'no_interrupt_lost', 'not_displaced', 'next_tick_not_after_stamp', 'served_as_root', 'tick_ends_after_roots', 'owed_cleared_only_by_update', 'interrupts_coalesce', 'interrupts_coalesce_fresh', 'interrupt_wake_le_stamp', 'interrupt_record_le_stamp', 'interrupt_keeps_earlier_callback', 'interrupt_keeps_earlier_callback_eq', 'interrupt_replaces_later_callback', 'displaced_without_record', 'interrupt_due_now', 'stamp_law', 'late_immediate', 'nested_no_interrupt_lost', 'queued_becomes_root', 'queued_means_told', 'clear_after_tick_loses', 'interrupt_served', 'interrupt_never_overtaken', 'interrupt_first_update', 'interrupt_next_tick', 'flatRunI_can_continue']
 ANCHORS = ["src/tickit/core/management/schedulers/master.py", "src/tickit/core/management/schedulers/base.py",
            "src/tickit/core/management/schedulers/nested.py", "src/tickit/core/components/system_component.py",
            "src/tickit/core/components/component.py"]
